@@ -487,9 +487,7 @@ theorem surplus_start_only_above_threshold (s : State) (gen2 : Bool) (k : Nat ×
     · rw [hd] at hdebt; cases hdebt
     · obtain ⟨_, _, e1, e2, e3, _⟩ := getAmount_exact hg
       refine ⟨c, hc, hthr, hact, ?_⟩
-      rcases hres with hres | ⟨_, _, hres⟩
-      · rw [hres]; exact ⟨e1, e2, e3⟩
-      · rw [hres]; exact ⟨e1, e2, e3⟩
+      rw [hres]; exact ⟨e1, e2, e3⟩
 
 /-- **A debt auction starts only at or below `debtThreshold − lotSize`** (hence below the debt threshold for a non-negative lot), and
 starting it moves nothing: only the active flag is raised. -/
@@ -536,11 +534,10 @@ example : Store.get (activate (actDemo 12000000 true) false [(1, 2)]).amap (1, 2
 /-- … one unit below it does not … -/
 example : activate (actDemo 11999999 true) true [(1, 2)] = actDemo 11999999 true := by decide
 example : activate (actDemo 11999999 true) false [(1, 2)] = actDemo 11999999 true := by decide
-/-- … and in the second generation, when English auctions are not activated for the app, the lot leaves the collector although no
-auction exists and the entry stays inactive, so the next block takes the next lot (the begin-blocker is not atomic; C15). -/
-example : fee (activate (activate (actDemo 14000000 false) true [(1, 2)]) true [(1, 2)]) (1, 2) = 10000000 ∧
-    Store.get (activate (activate (actDemo 14000000 false) true [(1, 2)]) true [(1, 2)]).amap (1, 2) = some { surplus := true } ∧
-    bal (activate (activate (actDemo 14000000 false) true [(1, 2)]) true [(1, 2)]) .auction 2 = 4000000 := by decide
+/-- … and in the second generation, when English auctions are not activated for the app, the kick-off fails AFTER the lot has left the
+collector; since fix 6f0df35 in /repo the unit is rolled back: nothing moves, the entry stays inactive, and later entries of the sweep
+are still looked at (before the fix the lots piled up in `auctionV1`, one per block). -/
+example : activate (activate (actDemo 14000000 false) true [(1, 2)]) true [(1, 2)] = actDemo 14000000 false := by decide
 
 /-! ## first-generation surplus / debt auctions: every close path (x/auction/keeper/surplus.go, debt.go) -/
 
